@@ -45,8 +45,13 @@ _STDINT = (['%sint%d_t' % (u, b) for b in (8, 16, 32, 64) for u in ('', 'u')] +
 ENUM_DECLS = ('enum tz_es { TZ_ES_A = -1, TZ_ES_B = 1 };\n'
               'enum tz_eu { TZ_EU_A = 0, TZ_EU_B = 1 };\n'
               'enum tz_el { TZ_EL_A = -1, TZ_EL_B = 0x100000000 };\n'
-              'enum tz_eul { TZ_EUL_A = 0, TZ_EUL_B = 0x100000000 };\n')
-_ENUMS = ['enum tz_es', 'enum tz_eu', 'enum tz_el', 'enum tz_eul']
+              'enum tz_eul { TZ_EUL_A = 0, TZ_EUL_B = 0x100000000 };\n'
+              # the largest enumerator is the maximum of the base type the enum must still get
+              'enum tz_esm { TZ_ESM_A = -1, TZ_ESM_B = 0x7FFFFFFF };\n'
+              'enum tz_eum { TZ_EUM_A = 0, TZ_EUM_B = 0xFFFFFFFF };\n'
+              'enum tz_eulm { TZ_EULM_A = 0, TZ_EULM_B = 0xFFFFFFFFFFFFFFFF };\n')
+_ENUMS = ['enum tz_es', 'enum tz_eu', 'enum tz_el', 'enum tz_eul',
+          'enum tz_esm', 'enum tz_eum', 'enum tz_eulm']
 _CHARS = ['char', 'wchar_t', 'char16_t', 'char32_t']
 
 
